@@ -463,6 +463,7 @@ def _refute_papi_1(unit, fn, repo, seed, backend):
             b = (s % 2**256).to_bytes(32, "little")
             v = s % 2**256
             add("sc.from_canonical %s" % _h(b), _h(b) if v < O.L else "NONE")
+            add("sc.from_bits %s" % _h(b), _h((v & (2**255 - 1)).to_bytes(32, "little")))
             add("sc.reduce32 %s" % _h(b), _h((v % O.L).to_bytes(32, "little")))
             add("sc.neg %s" % _h(b), _h(((-v) % O.L).to_bytes(32, "little")))
             add("sc.invert %s" % _h(b), _h(pow(v % O.L, O.L - 2, O.L).to_bytes(32, "little")) if v % O.L else ("any", 0))
@@ -477,10 +478,10 @@ def _refute_papi_1(unit, fn, repo, seed, backend):
         add("sc.reduce64 %s" % ("ff" * 64), _h(((2**512 - 1) % O.L).to_bytes(32, "little")))
     if "edmul" in fams:
         pts = valid_pts[:6] + [(O.ed_encode(O.B), O.B)]
-        for s in _scalars(rng, 6):
-            if s >= 2**255:
-                continue
-            sb = s.to_bytes(32, "little")
+        for s0 in _scalars(rng, 6):
+            # the replay builds scalars with the (deprecated, legacy_compatibility) Scalar::from_bits, which is documented to clear bit 255
+            sb = (s0 % 2**256).to_bytes(32, "little")
+            s = (s0 % 2**256) & (2**255 - 1)
             add("ed.mul_base %s" % _h(sb), _h(O.ed_encode(O.ed_mul(s, O.B))))
             for (b1, a1) in pts:
                 add("ed.mul %s %s" % (_h(b1), _h(sb)), _h(O.ed_encode(O.ed_mul(s, a1))))
